@@ -164,7 +164,7 @@ func checkClearsignWith(c ClearsignCase, kr openpgp.EntityList, armored bool, kr
 
 var specC11 = Register(&Spec[ClearsignCase]{
 	Prop: "C11", Name: "clearsign",
-	Rule:  "fault enumeration over clearsigned documents: C07 documents (1..3 paragraphs, LF) signed with clearsign.Encode by an RSA entity from a per-process pool; keyring = signer only / signer among others / others only / empty for the unmutated document; the same keyring OBJECT changed in place (to other keys, to no keys) between two reads of the same bytes - the second read must fail; then with the signer in the keyring EVERY single-byte substitution (XOR 0x01, XOR 0x20, 'A'), EVERY single-byte deletion, EVERY single-byte insertion ('A', blank, newline), EVERY truncation length, splices of a foreign paragraph before the armor, inside the signed text, between text and signature, inside the signature armor and after it, replacement of the signature by that of another key or of another text, and removal of the signature block; the binary signature truncated at 8 lengths or with one byte flipped (every byte in the thorough tier, every 7th in quick) and armored afresh with a correct checksum, alone and under an altered text; each character of the armor's CRC-24 line replaced by other base64 characters (must fail: the signature is damaged, as gpgv says too). Oracle: reading (ParagraphReader.All and Decoder.Decode) ends in an error, or succeeds with Signer() == signing entity in the keyring and paragraphs == those of the signed text; success with a nil signer is allowed only when the input no longer starts with the armor header; the unmutated document with the signer in the keyring must be accepted. Non-trivial: every faulted case; distinct by (bytes, keyring).",
+	Rule:  "fault enumeration over clearsigned documents: C07 documents (1..3 paragraphs, LF) signed with clearsign.Encode by an RSA entity from a per-process pool; keyring = signer only / signer among others / others only / empty for the unmutated document; the same keyring OBJECT changed in place (to other keys, to no keys) between two reads of the same bytes - the second read must fail; then with the signer in the keyring EVERY single-byte substitution (XOR 0x01, XOR 0x20, 'A'), EVERY single-byte deletion, EVERY single-byte insertion ('A', blank, newline), EVERY truncation length, splices of a foreign paragraph before the armor, inside the signed text, between text and signature, inside the signature armor and after it, replacement of the signature by that of another key or of another text, and removal of the signature block; a second complete clearsigned document appended (same signer, other signer, a replay of the first); the binary signature truncated at 8 lengths or with one byte flipped (every byte in the thorough tier, every 7th in quick) and armored afresh with a correct checksum, alone and under an altered text; each character of the armor's CRC-24 line replaced by other base64 characters (must fail: the signature is damaged, as gpgv says too). Oracle: reading (ParagraphReader.All and Decoder.Decode) ends in an error, or succeeds with Signer() == signing entity in the keyring and paragraphs == those of the signed text; success with a nil signer is allowed only when the input no longer starts with the armor header; the unmutated document with the signer in the keyring must be accepted. Non-trivial: every faulted case; distinct by (bytes, keyring).",
 	Check: checkClearsign,
 })
 
@@ -306,6 +306,17 @@ func enumerateClearsignFaults(b SignBase, thorough bool, yield func(ClearsignCas
 			// ... and the other way round: other text, this signature
 			cases["text:other-text-this-sig"] = []byte(os[:strings.Index(os, "-----BEGIN PGP SIGNATURE-----")] + s[sigStart:])
 		}
+		// a second complete clearsigned document behind the first one (the same text signed again,
+		// another text by the same key, a text by another key that is in the keyring too): only the
+		// first block is "the signed text"; nothing after its signature may come back
+		if second, err := signDoc("Evil: yes\nPackage: evil\n", signer); err == nil {
+			cases["second-block:same-signer"] = []byte(s + string(second))
+			cases["second-block:same-signer-after-junk"] = []byte(s + "Loose: text\n\n" + string(second))
+		}
+		if second, err := signDoc("Evil: yes\nPackage: evil\n", other); err == nil {
+			cases["second-block:other-signer"] = []byte(s + string(second))
+		}
+		cases["second-block:replay"] = []byte(s + s)
 		// damage UNDER a valid armor: the binary signature is cut short or has a byte flipped and is
 		// then armored afresh (correct CRC-24), so only the OpenPGP layer can notice - alone, and
 		// together with an altered signed text
@@ -350,7 +361,11 @@ func enumerateClearsignFaults(b SignBase, thorough bool, yield func(ClearsignCas
 		}
 		sortStrings(names)
 		for _, k := range names {
-			if !yield(mk(cases[k], k)) {
+			c := mk(cases[k], k)
+			if strings.HasPrefix(k, "second-block:") {
+				c.Keyring = serializePublic(signer, other) // both signers are trusted: still only the first block counts
+			}
+			if !yield(c) {
 				return false
 			}
 		}
